@@ -358,6 +358,11 @@ def _execute(prop, case):
     from . import bootstrap
     dbg = bool(isinstance(case, dict) and case.get('_debug_log'))
     bootstrap.set_debug_logging(dbg)
+    # every case starts like a freshly started process as far as lomond's
+    # module- and class-level containers go (lazily filled tables, caches):
+    # runs do not depend on what the worker executed before, and first-use
+    # paths are exercised by every case
+    bootstrap.reset_process_state()
     try:
         res = prop.execute(case)
     finally:
